@@ -575,9 +575,37 @@ def stress(wseed, binary, budget_s, auto=False):
         except (Closed, Timeout):
             pass
 
-    threads = [threading.Thread(target=writer, args=(i,)) for i in range(4)]
+    # one long-lived sorted set whose members are only ever re-scored (single-member ZADD of an existing
+    # member: one critical section of the skip list): the save thread walks it through the shared Arc, so
+    # every dump must hold each of the NZ members exactly once, with a score the member had during the save
+    NZ = 4000
+    zhist = [[[float(i), 0.0, 0.0]] for i in range(NZ)]     # member -> versions [score, t_send, t_ack]
+
+    def rescorer():
+        c = srv.client(timeout=30)
+        r = util.rng_for(wseed, "z")
+        try:
+            while not stop.is_set():
+                picks = r.sample(range(NZ), 8)
+                scores = [r.randrange(10 * NZ) for _ in picks]
+                t0 = time.monotonic()
+                entries = [[float(sc), t0, float("inf")] for sc in scores]
+                with lock:
+                    for i, e in zip(picks, entries):      # recorded before it is sent: an update in flight is admissible
+                        zhist[i].append(e)
+                c.pipeline([[b"ZADD", b"cz", b"%d" % sc, b"m:%d" % i] for i, sc in zip(picks, scores)])
+                t1 = time.monotonic()
+                with lock:
+                    for e in entries:
+                        e[2] = t1
+        except (Closed, Timeout):
+            pass
+
+    threads = [threading.Thread(target=writer, args=(i,)) for i in range(4)] + [threading.Thread(target=rescorer)]
     try:
         ctl = srv.client(timeout=60)
+        for i in range(0, NZ, 1000):
+            ctl.cmd("ZADD", "cz", *[x for j in range(i, i + 1000) for x in (b"%d" % j, b"m:%d" % j)])
         # untouched keys at the edges of the dump's length encodings (6 bit / 14 bit / 32 bit): every dump
         # taken under load must bring them back exactly - a length written wrong also derails what follows it
         edge = {}
@@ -663,6 +691,37 @@ def stress(wseed, binary, budget_s, auto=False):
                         nsaves, resp.show(k), resp.show(list(gv), 40), got[2], resp.show([list(a) for a in admissible[:6]], 40)))
                     break
             res.count("stress_keys_checked", checked)
+            with lock:
+                zsnap = [[tuple(e) for e in vs] for vs in zhist]
+            got = loaded.get((0, b"cz"), ("none", None, False))
+            if got[0] != "zset":
+                res.violation("stress/conserved-zset/lost", "dump of BGSAVE #%d holds the %d-member sorted set as %s" % (nsaves, NZ, resp.show(list(got), 40)))
+            else:
+                names = [m for m, sc in got[1]]
+                want_names = set(b"m:%d" % i for i in range(NZ))
+                if len(names) != NZ or set(names) != want_names:
+                    missing = sorted(want_names - set(names))
+                    twice = sorted(set(m for m in names if names.count(m) > 1)) if len(names) != len(set(names)) else []
+                    res.violation("stress/conserved-zset/members", "members are only re-scored, never removed or added, yet the dump of BGSAVE #%d holds %d entries, "
+                                  "%d distinct; missing %s, more than once %s" % (nsaves, len(names), len(set(names)), resp.show(missing[:5]), resp.show(twice[:5])))
+                else:
+                    moved = 0
+                    for m, sc in got[1]:
+                        vs = zsnap[int(m[2:])]
+                        ok = False
+                        for j, (vsc, ts, ta) in enumerate(vs):
+                            nxt_ack = vs[j + 1][2] if j + 1 < len(vs) else float("inf")
+                            if ts <= s1 and nxt_ack >= s0 and vsc == sc:
+                                ok = True
+                                break
+                        if len(vs) > 1:
+                            moved += 1
+                        if not ok:
+                            res.violation("stress/conserved-zset/score-never-held", "dump of BGSAVE #%d: member %s has score %r; scores possibly current during the save: %s" % (
+                                nsaves, resp.show(m), sc, [v[0] for j, v in enumerate(vs) if v[1] <= s1 and (vs[j + 1][2] if j + 1 < len(vs) else float("inf")) >= s0][:6]))
+                            break
+                    res.count("stress_zset_members_checked", NZ)
+                    res.extra["stress_zset_rescores_total"] = sum(len(v) - 1 for v in zsnap)
             for k, want in edge.items():
                 got = loaded.get((0, k), ("none", None, False))
                 if (got[0], got[1], got[2]) != want:
@@ -680,6 +739,174 @@ def stress(wseed, binary, budget_s, auto=False):
             t.join(timeout=10)
         srv.cleanup()
     return res
+
+
+# --------------------------------------------------------------------------- overlapping saves
+def _ov_value(i, ver):
+    """Value of static key i in dataset version `ver`: the length depends on both, so two versions lay the file out differently."""
+    return b"%d.%d:" % (i, ver) + bytes([97 + (i + ver) % 26]) * (40 + (i * 37 + ver * 911) % 2500)
+
+
+def _ov_judge(res, binary, dump, nkeys, versions, tag, what, shifters=None):
+    """The dump must load and hold every static key with its value from one of `versions`; shifter keys
+    (rewritten between saves) any value they were ever given."""
+    res.evaluations += 1
+    if dump is None:
+        res.violation("overlap/%s/no-dump" % tag, "%s: no dump.rdb although a save had completed before" % what)
+        return False
+    try:
+        loaded, log = load_dump_in_second_child(binary, dump)
+    except Exception as e:
+        res.violation("overlap/%s/unloadable" % tag, "%s: dump.rdb (%d bytes, %d zero bytes) does not load: %r" % (what, len(dump), dump.count(0), e))
+        return False
+    if "Failed to load RDB" in log or "panicked" in log:
+        res.violation("overlap/%s/unloadable" % tag, "%s: dump.rdb (%d bytes, %d zero bytes) fails to load: %s" % (what, len(dump), dump.count(0), log[-300:]))
+        return False
+    seen_versions = set()
+    for i in range(nkeys):
+        got = loaded.get((0, b"o:%d" % i), ("none", None, False))
+        ok = [v for v in versions if got == ("string", _ov_value(i, v), False)]
+        if not ok:
+            res.violation("overlap/%s/value-never-held" % tag, "%s: dump.rdb holds o:%d = %s; the key only ever held the values of versions %s (e.g. %s)" % (
+                what, i, resp.show(list(got), 50), versions, resp.show(_ov_value(i, versions[-1]), 50)))
+            return False
+        seen_versions.update(ok)
+    for k, vals in (shifters or {}).items():
+        got = loaded.get((0, k), ("none", None, False))
+        if got[0] != "string" or got[1] not in vals:
+            res.violation("overlap/%s/shifter-never-held" % tag, "%s: dump.rdb holds %s = %s, not one of the %d values written to it" % (what, resp.show(k), resp.show(list(got), 50), len(vals)))
+            return False
+    extra = [k for (db, k) in loaded if not k.startswith(b"o:") and k not in (shifters or {})]
+    if extra:
+        res.violation("overlap/%s/unknown-keys" % tag, "%s: dump.rdb holds keys nobody wrote: %s" % (what, resp.show(extra[:5])))
+        return False
+    res.cell("overlap", tag, "versions-in-dump=" + "+".join(str(v) for v in sorted(seen_versions)))
+    return True
+
+
+def overlap_shutdown(binary, res, rng, rounds):
+    """BGSAVE parked in the middle of its file, the data set rewritten, then SHUTDOWN (which saves on the command
+    thread without waiting) and the release of the parked thread in one write: two saves of differently laid out
+    snapshots run to their ends side by side. Whatever order they finish in and whenever the process leaves, the
+    dump.rdb that remains must be one complete snapshot whose every key holds a value it had."""
+    nkeys = 300
+    for rnd in range(rounds):
+        srv = server.Server(binary, config_text="save \"\"\n").start()
+        try:
+            c = srv.client(timeout=30)
+            c.pipeline([[b"SET", b"o:%d" % i, _ov_value(i, 0)] for i in range(nkeys)])
+            if c.cmd("SAVE") != OK:
+                res.inconclusive.append("overlap/shutdown: initial SAVE refused")
+                continue
+            c.pipeline([[b"SET", b"o:%d" % i, _ov_value(i, 1)] for i in range(nkeys)])
+            hold_key = b"o:%d" % rng.randrange(nkeys)
+            phase = rng.choice(["after-key", "before-get", "between-get-and-ttl"])
+            c.cmd("VERIF", "RDB", "HOLD", phase, hold_key)
+            c.cmd("BGSAVE")
+            t_end = time.monotonic() + 10
+            parked = False
+            while time.monotonic() < t_end:
+                if c.cmd("VERIF", "RDB", "STATE")[0] == b"parked":
+                    parked = True
+                    break
+                time.sleep(0.001)
+            if not parked:
+                res.inconclusive.append("overlap/shutdown: save thread never parked")
+                continue
+            c.pipeline([[b"SET", b"o:%d" % i, _ov_value(i, 2)] for i in range(nkeys)])
+            srv.expect_exit()
+            delay_release = rng.choice([0, 0, 0.01, 0.04])
+            try:
+                if delay_release:
+                    c.send("SHUTDOWN")
+                    time.sleep(delay_release)
+                    c.send("VERIF", "RDB", "RELEASE")
+                else:
+                    c.send_raw(resp.encode([b"SHUTDOWN"]) + resp.encode([b"VERIF", b"RDB", b"RELEASE"]))
+            except Closed:
+                pass
+            try:
+                srv.proc.wait(timeout=20)
+            except Exception:
+                res.inconclusive.append("overlap/shutdown: the server did not leave within 20 s of SHUTDOWN")
+                continue
+            res.cell("overlap", "shutdown", "hold=" + phase, "release-delay=%s" % delay_release)
+            # version 0 everywhere = the dump of the first SAVE survived (neither later save completed): complete, hence admissible
+            _ov_judge(res, binary, read_dump(srv), nkeys, [0, 1, 2], "shutdown-during-bgsave",
+                      "SHUTDOWN while a BGSAVE was parked at %s(%s), thread released right after" % (phase, resp.show(hold_key)))
+            res.count("overlap_shutdown_rounds")
+        finally:
+            srv.cleanup()
+
+
+def overlap_autosave(binary, res, rng, budget_s):
+    """SAVE in a loop while the rule `save 1 1` lets the monitor thread start background saves by itself: a
+    background save that starts while a SAVE is writing runs side by side with it (SAVE only looks for a running
+    BGSAVE, not the other way round). One shifter key of unpredictable length is rewritten between the SAVEs, so
+    any two snapshots lay the file out differently. dump.rdb is read after every reply; the dumps read around an
+    observed overlap, and a sample of the others, are loaded in a second child."""
+    nkeys = 1500
+    srv = server.Server(binary, config_text="save 1 1\n").start()
+    try:
+        c = srv.client(timeout=60)
+        c.pipeline([[b"SET", b"o:%d" % i, _ov_value(i, 5)] for i in range(nkeys)])
+        shifters = {b"shift:%d" % j: {b"0:s"} for j in range(8)}
+        c.pipeline([[b"SET", k, b"0:s"] for k in shifters])
+        n = 0
+        dumps = []          # (priority, n, bytes)
+        overlaps = 0
+        refused = 0
+        errors = 0
+        t_end = time.monotonic() + budget_s
+        while time.monotonic() < t_end:
+            n += 1
+            k = b"shift:%d" % rng.randrange(8)
+            v = b"%d:" % n + b"s" * rng.randrange(1, 6000)
+            shifters[k].add(v)
+            c.cmd("SET", k, v)
+            st0 = c.cmd("VERIF", "RDB", "SAVES")
+            r = c.cmd("SAVE")
+            st1 = c.cmd("VERIF", "RDB", "SAVES")
+            d = read_dump(srv)
+            side_by_side = (st1[0] - st0[0] >= 2) or (st0[0] > st0[1]) or (st1[0] > st1[1])
+            if isinstance(r, Err):
+                if b"in progress" in r.s:
+                    refused += 1
+                else:
+                    errors += 1
+                    res.count("overlap_save_errors_on_a_healthy_disk")
+                    res.sample("SAVE under rule `save 1 1` answered %s" % resp.show(r))
+            if side_by_side and r == OK:
+                overlaps += 1
+            if d is not None:
+                pri = 0 if (side_by_side or d.count(0) > 64) else 1
+                dumps.append((pri, n, d))
+            if overlaps >= 6 and n > 40:
+                break
+        wait_saves_done(c, 30)
+        d = read_dump(srv)
+        if d is not None:
+            dumps.append((0, n + 1, d))
+        res.count("overlap_autosave_saves", n)
+        res.count("overlap_autosave_side_by_side", overlaps)
+        res.count("overlap_autosave_save_refused_bgsave_running", refused)
+        res.cell("overlap", "autosave", "side-by-side-observed" if overlaps else "never-side-by-side")
+        first = [x for x in dumps if x[0] == 0]
+        rest = [x for x in dumps if x[0] == 1]
+        rng.shuffle(rest)
+        seen = set()
+        for pri, nn, d in first[:14] + rest[:4]:
+            h = hash(d)
+            if h in seen:
+                continue
+            seen.add(h)
+            if not _ov_judge(res, binary, d, nkeys, [5], "save-beside-autosave",
+                             "dump.rdb read after SAVE #%d of a loop under rule `save 1 1` (%s)" % (nn, "a background save ran side by side" if pri == 0 else "sampled"),
+                             shifters=shifters):
+                break
+        c.close()
+    finally:
+        srv.cleanup()
 
 
 # --------------------------------------------------------------------------- dispatch
@@ -707,6 +934,17 @@ def _w(arg, binary, tier, nshards, seed):
             except (Closed, Timeout, RuntimeError) as e:
                 res.inconclusive.append("resave scenario: %r" % (e,))
         return res
+    if role == "overlap":
+        res = Result()
+        rng = util.rng_for(seed, "C10-overlap", shard)
+        try:
+            if shard == 0:
+                overlap_shutdown(binary, res, rng, 8 if tier == "quick" else 60)
+            else:
+                overlap_autosave(binary, res, rng, 9 if tier == "quick" else 90)
+        except (Closed, Timeout, RuntimeError) as e:
+            res.inconclusive.append("overlap scenario: %r" % (e,))
+        return res
     if role == "stress":
         return stress(seed * 10 + shard, binary, 15 if tier == "quick" else 120)
     if role == "stress-auto":
@@ -723,13 +961,13 @@ def run(tier):
     binary, bt = server.build("dev")
     rsbin.build()
     args = [("fault", i) for i in range(6)] + [("abort", i) for i in range(3)] + [("hold", i) for i in range(5)] + \
-           [("stress", 0)] + [("stress-auto", 0)] + [("loader", 0)] + [("osfault", i) for i in range(4)] + [("resave", 0)] + [("stale-records", 0)]
+           [("stress", 0)] + [("stress-auto", 0)] + [("loader", 0)] + [("osfault", i) for i in range(4)] + [("resave", 0)] + [("stale-records", 0)] + [("overlap", 0), ("overlap", 1)]
     res = Result()
     for role, count in (("fault", 6), ("abort", 3), ("hold", 5)):
         pass
     # each role is sharded over its own number of workers
     def nsh(role):
-        return {"fault": 6, "abort": 3, "hold": 5, "stress": 1, "stress-auto": 1, "loader": 1, "osfault": 4, "resave": 1, "stale-records": 1}[role]
+        return {"fault": 6, "abort": 3, "hold": 5, "stress": 1, "stress-auto": 1, "loader": 1, "osfault": 4, "resave": 1, "stale-records": 1, "overlap": 2}[role]
     jobs = []
     for role, shard in args:
         jobs.append((role, shard))
@@ -750,7 +988,10 @@ def run(tier):
                        "at {before-get, between-get-and-ttl, after-key, zset-len-range} x six types x 11 client actions x "
                        "{TTL, no TTL}, SAVE during a parked BGSAVE, and BGSAVE in a loop (and, separately, the auto-save rule `save 1 1`) under 4 writers of uniquely versioned "
                        "keys - every dump loaded in a second child, each key must be a (value, TTL-presence) pair it had at one "
-                       "instant during the save; C: every prefix and 14 single-byte substitutions at every offset of 4 (quick) / "
+                       "instant during the save, and a 4000-member sorted set that is only re-scored must be in every dump with each member exactly once and a score it had; "
+                       "overlap: BGSAVE parked in mid-file + data set rewritten + SHUTDOWN and RELEASE in one write (two saves of different layouts finish side by side "
+                       "while the process leaves: the remaining dump.rdb loads and holds one of each key's three versions), SAVE loop under rule `save 1 1` with dump.rdb read after every reply; "
+                       "C: every prefix and 14 single-byte substitutions at every offset of 4 (quick) / "
                        "21 (thorough) valid dumps loaded in-process under catch_unwind + counting allocator + watchdog; thorough: "
                        "120 s of BGSAVE/SAVE/BGREWRITEAOF under 6 writers against a ThreadSanitizer build; "
                        "cell = (part, type, phase / step class, action)", t0,
